@@ -1115,6 +1115,108 @@ fn sender_race_case(cx: &mut Ctx, old: &Version, new: &Version, mode: u8, recv_s
         &format!("status {:?}; updates {}; receiver has {:?}; sender versions {:?} / {:?}", run.st, upd_txt, ap.final_content, vo, vn));
 }
 
+// ---------------------------------------------------------------- the middleware's decision table
+
+#[derive(Clone)]
+struct DcProvider { zone: Zone, diffs: Vec<Arc<InMemoryZoneDiff>>, compat: bool, mode: u8 }
+impl XfrDataProvider<()> for DcProvider {
+    type Diff = Arc<InMemoryZoneDiff>;
+    fn request<Octs>(&self, _req: &Request<Octs, ()>, _diff_from: Option<Serial>)
+        -> Pin<Box<dyn Future<Output = Result<XfrData<Self::Diff>, XfrDataProviderError>> + Sync + Send>>
+    where Octs: domain::dep::octseq::Octets + Send + Sync {
+        let res = match self.mode {
+            0 => Ok(XfrData::new(self.zone.clone(), self.diffs.clone(), self.compat)),
+            1 => Err(XfrDataProviderError::ParseError(domain::base::wire::ParseError::ShortInput)),
+            2 => Err(XfrDataProviderError::UnknownZone),
+            3 => Err(XfrDataProviderError::TemporarilyUnavailable),
+            _ => Err(XfrDataProviderError::Refused),
+        };
+        Box::pin(ready(res))
+    }
+}
+
+/// One request against XfrMiddlewareSvc::preprocess: what kind of answer comes back.
+#[allow(clippy::too_many_arguments)]
+fn decision_case(cx: &mut Ctx, place: u64, relevant: u8, qtype: u16, qser: Option<u32>, udp: bool, mode: u8, with_diff: bool, compat: bool, qname_in_zone: bool) {
+    let uni = cx.uni;
+    let v0 = Version { soa: 40, keys: [0u32, 1, 5].into_iter().collect() };
+    let v1 = Version { soa: 44, keys: [0u32, 1, 6, 9].into_iter().collect() };
+    cx.place(place, &[v0.soa.saturating_sub(8), v1.soa + 8]);
+    let real = |id: u32| -> u32 { (id >> 1).wrapping_add(uni.offset.get()) };
+    let zs = real(v1.soa);
+    let qser_real = qser.map(|d| zs.wrapping_add(d));    // relative to the zone serial
+    let prw = match mode { 0 => format!("ok:{}:{}", with_diff as u8, compat as u8), 1 => "parse".into(), 2 => "unknown".into(), 3 => "unavail".into(), _ => "refused".into() };
+    let case = format!("dc {} {} {} {} {} {}", (relevant == 0) as u8, qtype, qser_real.map_or("n".to_string(), |x| x.to_string()), udp as u8, prw,
+        if qname_in_zone { zs.to_string() } else { "n".to_string() });
+    cx.out.begin(&case);
+    let szone = build_zone(uni, Some(v0.soa), &v0.keys);
+    let rt = cx.rt;
+    let res = catch_mut(|| rt.block_on(async {
+        // v0 -> v1 through the updater: the zone's own diff
+        let mut up: ZoneUpdater<StoredName> = ZoneUpdater::new(szone.clone()).await.map_err(|e| e.to_string())?;
+        up.apply(ZoneUpdate::BeginBatchDelete(stored(uni, AR::Soa(v0.soa)))).await.map_err(|e| e.to_string())?;
+        for k in v0.keys.difference(&v1.keys) { up.apply(ZoneUpdate::DeleteRecord(stored(uni, AR::Other(*k)))).await.map_err(|e| e.to_string())?; }
+        up.apply(ZoneUpdate::BeginBatchAdd(stored(uni, AR::Soa(v1.soa)))).await.map_err(|e| e.to_string())?;
+        for k in v1.keys.difference(&v0.keys) { up.apply(ZoneUpdate::AddRecord(stored(uni, AR::Other(*k)))).await.map_err(|e| e.to_string())?; }
+        let d = up.apply(ZoneUpdate::Finished(stored(uni, AR::Soa(v1.soa)))).await.map_err(|e| e.to_string())?.ok_or("no diff")?;
+        let mb = MessageBuilder::new_vec();
+        let mut q = mb.question();
+        match relevant { 1 => q.header_mut().set_qr(true), 2 => q.header_mut().set_opcode(domain::base::iana::Opcode::NOTIFY), _ => {} }
+        let qname = if qname_in_zone { uni.apex.clone() } else { nm("www.example.test.") };
+        q.push((qname.clone(), Rtype::from_int(qtype))).unwrap();
+        if relevant == 3 { q.push((qname.clone(), Rtype::A)).unwrap(); }
+        let mut au = q.authority();
+        if let Some(sr) = qser_real {
+            let soa: Data = ZoneRecordData::Soa(Soa::new(nm("ns1.example.test."), nm("admin.example.test."), Serial(sr),
+                Ttl::from_secs(3600), Ttl::from_secs(600), Ttl::from_secs(86400), Ttl::from_secs(300)));
+            au.push((uni.apex.clone(), Class::IN, Ttl::from_secs(3600), soa)).unwrap();
+        }
+        let ctx = if udp { TransportSpecificContext::Udp(domain::net::server::message::UdpTransportContext::new(None)) }
+                  else { TransportSpecificContext::NonUdp(NonUdpTransportContext::new(None)) };
+        let req = Request::new("127.0.0.1:12345".parse().unwrap(), tokio::time::Instant::now(), au.into_message(), ctx, ());
+        let provider = DcProvider { zone: szone.clone(), diffs: if with_diff { vec![Arc::new(d)] } else { vec![] }, compat, mode };
+        let sem = || Arc::new(tokio::sync::Semaphore::new(1));
+        let r = XfrMiddlewareSvc::<Vec<u8>, NextSvc, (), DcProvider>::preprocess(sem(), sem(), &req, provider).await;
+        let mut stream = match r {
+            Ok(ControlFlow::Continue(())) => return Ok("continue".to_string()),
+            Err(rc) => return Ok(format!("err{}", rc.to_int())),
+            Ok(ControlFlow::Break(s)) => s,
+        };
+        let mut msgs: Vec<Vec<u8>> = vec![];
+        loop {
+            match tokio::time::timeout(std::time::Duration::from_secs(10), stream.next()).await {
+                Err(_) => return Err("timeout".to_string()),
+                Ok(None) => break,
+                Ok(Some(Err(e))) => return Err(format!("service error {:?}", e)),
+                Ok(Some(Ok(cr))) => { if let Some(b) = cr.into_inner().0 { msgs.push(b.as_message().as_slice().to_vec()); } }
+            }
+        }
+        // classify the answer
+        let mut rcode = 0u8; let mut soas = 0usize; let mut total = 0usize; let mut one_per_msg = true;
+        for w in &msgs {
+            let m = Message::from_octets(Bytes::from(w.clone())).map_err(|_| "short")?;
+            rcode = m.header().rcode().to_int();
+            let n = m.header_counts().ancount() as usize;
+            if n != 1 { one_per_msg = false; }
+            total += n;
+            for r in m.answer().map_err(|_| "answer")?.limit_to::<ZoneRecordData<Bytes, domain::base::ParsedName<Bytes>>>() {
+                if let Ok(r) = r { if r.rtype() == Rtype::SOA { soas += 1; } }
+            }
+        }
+        Ok(if rcode == 4 { "notimp".to_string() }
+           else if rcode != 0 { format!("rcode{}", rcode) }
+           else if total == 1 && soas == 1 { "single".to_string() }
+           else if soas == 2 { format!("axfr{}", (one_per_msg && msgs.len() > 1) as u8) }
+           else if soas >= 4 { "ixfr".to_string() }
+           else { format!("unclassified:{}:{}", total, soas) })
+    }));
+    match res {
+        Ok(Ok(obs)) => cx.out.case(&case, &obs, true, "dc"),
+        Ok(Err(e)) => { cx.chk(false, "sender_failed", &case, &e); }
+        Err(_) => cx.out.case(&case, "panic", true, "dc"),
+    }
+}
+
 // ---------------------------------------------------------------- TSIG signed transfers
 
 fn build_additional(uni: &Uni, m: &AMsg) -> AdditionalBuilder<BytesMut> {
@@ -1463,6 +1565,23 @@ fn main() {
             let comp = fr.below(3) as u8;
             abort_case(&mut cx, &mut fr, &chain, other.as_ref(), comp);
         }
+    }
+
+    // ---- the middleware's decision table ----
+    {
+        let sers: [Option<u32>; 6] = [None, Some(0), Some(1), Some(u32::MAX), Some(0x7FFF_FFFF), Some(0x8000_0000)];   // relative to the zone serial
+        let mut n = 0u64;
+        for qtype in [252u16, 251, 1] { for qs in sers { for udp in [false, true] { for with_diff in [false, true] { for compat in [false, true] {
+            // a diff handed out for an AXFR question reaches unreachable!(): provider contract, kept out of the quick sweep
+            if qtype == 252 && with_diff && !udp { continue; }
+            decision_case(&mut cx, n % 4, 0, qtype, qs, udp, 0, with_diff, compat, true);
+            n += 1;
+        } } } } }
+        for mode in 1..5u8 { for qtype in [252u16, 251] { decision_case(&mut cx, n % 4, 0, qtype, Some(u32::MAX), false, mode, false, false, true); n += 1; } }
+        for rel in 1..4u8 { decision_case(&mut cx, 0, rel, 252, None, false, 0, false, false, true); }
+        decision_case(&mut cx, 0, 0, 252, None, false, 0, false, false, false);       // no SOA at the qname
+        decision_case(&mut cx, 1, 0, 251, Some(u32::MAX), false, 0, true, false, false);
+        decision_case(&mut cx, 0, 0, 252, None, false, 0, true, false, true);         // diffs for an AXFR question: unreachable!()
     }
 
     // ---- transfers with more than 65535 records in all ----
